@@ -1,6 +1,7 @@
 package main
 
 import (
+	"bytes"
 	"fmt"
 	"strings"
 	"time"
@@ -12,7 +13,7 @@ func init() { checks["C15"] = checkC15 }
 
 func checkC15(c *Ctx) {
 	r := c.Rng
-	c.Ev.Coverage.Rule = "histories of 2..30 calls sharing one reused ParsedJson (kept across failures: the object handed in is reused again after a failed call), one Serializer switching modes and one Deserialize destination: Parse/ParseND of valid documents, stage-1 failures (unterminated string, control character, no closing bracket) and stage-2 failures, below and above the 8 KiB threshold (also failing in a late index buffer, and at the very start of a dense <= 8 KiB document with several index buffers queued); half of the histories use by-value handles, both string modes, in-place edits of the returned object in between; every call's outcome and canonical document are compared with the same call on fresh objects; the index channel of the reused state must be empty after every call. non-trivial = history with at least one failure followed by a success on the reused object; distinct = by call sequence"
+	c.Ev.Coverage.Rule = "histories of 2..30 calls sharing one reused ParsedJson (kept across failures: the object handed in is reused again after a failed call), one Serializer switching modes and one Deserialize destination (the blob, taken after the in-place edits so that it carries deleted runs, is also deserialized into a fresh destination: same tape word for word, same strings, same re-serialization): Parse/ParseND of valid documents, stage-1 failures (unterminated string, control character, no closing bracket) and stage-2 failures, below and above the 8 KiB threshold (also failing in a late index buffer, and at the very start of a dense <= 8 KiB document with several index buffers queued); half of the histories use by-value handles, both string modes, in-place edits of the returned object in between; every call's outcome and canonical document are compared with the same call on fresh objects; the index channel of the reused state must be empty after every call. non-trivial = history with at least one failure followed by a success on the reused object; distinct = by call sequence"
 	mkDoc := func() (doc []byte, nd bool, kind string) {
 		size := r.Intn(4)
 		var base string
@@ -126,6 +127,16 @@ func checkC15(c *Ctx) {
 					hv := *got.PJ
 					reuse = &hv
 				}
+				// in-place edits on the object that will be reused
+				if r.Chance(1, 3) {
+					hh := &history{doc: doc, pj: got.PJ}
+					for e := 0; e < 1+r.Intn(3); e++ {
+						if op := c.pickEdit(r, hh, r.Bool()); op != nil {
+							it := iterAt(hh.pj, op.K)
+							safeApply(op, &it)
+						}
+					}
+				}
 				// serializer / destination reuse
 				if r.Chance(1, 2) {
 					m := compModes[r.Intn(4)]
@@ -139,6 +150,26 @@ func checkC15(c *Ctx) {
 							c.Violate("reuse", "Serialize/Deserialize with a reused Serializer and destination failed", "reuse-ser", info)
 							break
 						}
+						// the same blob into a fresh destination: same tape word for word (the words
+						// inside deleted runs included), same strings, and it serializes the same
+						fresh, errF, panF := safeDeserialize(simdjson.NewSerializer(), blob, nil)
+						if errF == nil && panF == "" {
+							if !eqU64(pj2.Tape, fresh.Tape) || string(pj2.Strings.B) != string(fresh.Strings.B) {
+								info["reused_tape"], info["fresh_tape"] = trunc(tapeHex(pj2.Tape), 600), trunc(tapeHex(fresh.Tape), 600)
+								c.Violate("reuse", "Deserialize into a reused destination leaves a tape or string buffer that differs from Deserialize into a fresh one", "reuse-deser-tape", info)
+								break
+							}
+							s1, s2 := simdjson.NewSerializer(), simdjson.NewSerializer()
+							s1.CompressMode(simdjson.CompressNone)
+							s2.CompressMode(simdjson.CompressNone)
+							b1, p1 := safeSerialize(s1, pj2)
+							b2, p2 := safeSerialize(s2, fresh)
+							if p1 != p2 || !bytes.Equal(b1, b2) {
+								c.Violate("reuse", "a result deserialized into a reused destination serializes differently from the same blob deserialized into a fresh one", "reuse-deser-reser", info)
+								break
+							}
+						}
+						a, _ = dumpDoc(got.PJ) // after the edits, if any
 						d2, e3 := dumpDoc(pj2)
 						if e3 != nil || d2 != a {
 							info["deser"], info["want"] = trunc(d2, 300), trunc(a, 300)
@@ -146,16 +177,6 @@ func checkC15(c *Ctx) {
 							break
 						}
 						dst = pj2
-					}
-				}
-				// in-place edits on the object that will be reused
-				if r.Chance(1, 3) {
-					hh := &history{doc: doc, pj: got.PJ}
-					for e := 0; e < 1+r.Intn(3); e++ {
-						if op := c.pickEdit(r, hh, r.Bool()); op != nil {
-							it := iterAt(hh.pj, op.K)
-							safeApply(op, &it)
-						}
 					}
 				}
 			} else {
